@@ -202,6 +202,9 @@ type ClusterMsg struct {
 	ErrorReply    bool     // deliver, but the sender sees an error (the reply is lost)
 	ReplayAltered bool     // contribute: after the genuine delivery, deliver a copy with the share replaced
 	Participants  []uint64 // prepare: the participant list, in message order
+	SessionLost   bool     // contribute: the receiver no longer holds the generation when the message arrives (it restarted)
+	ForgedReply   bool     // commit: the message never arrives; the sender is handed the (right) public key and a made-up confirmation
+	ForgedPK      []byte   // the public key of the forged reply
 }
 
 type Cluster struct {
@@ -305,6 +308,15 @@ func (s *clusterSender) Commit(ctx context.Context, r *core.Endpoint, account st
 	if err := s.c.note(m); err != nil {
 		return nil, nil, err
 	}
+	if m.ForgedReply {
+		var sk bls.SecretKey
+		sk.SetByCSPRNG()
+		pk := m.ForgedPK
+		if len(pk) == 0 {
+			pk = sk.GetPublicKey().Serialize()
+		}
+		return pk, sk.SignByte(data).Serialize(), nil
+	}
 	node := s.c.Nodes[r.ID]
 	var res *pb.CommitResponse
 	func() {
@@ -345,6 +357,9 @@ func (s *clusterSender) SendContribution(ctx context.Context, r *core.Endpoint, 
 	req := &pb.ContributeRequest{Account: account, Secret: m.Secret.Serialize()}
 	for i := range *m.VVec {
 		req.VerificationVector = append(req.VerificationVector, (*m.VVec)[i].Serialize())
+	}
+	if m.SessionLost {
+		_ = node.Process.OnAbort(ctx, s.from, account)
 	}
 	res, err := node.Receiver.Contribute(s.peerCtx(ctx), req)
 	if err == nil && m.Duplicate {
